@@ -365,6 +365,11 @@ def run(tier='quick', seed=0, nproc=16):
   seqs = []
   for n in range(0, k + 1):
     seqs += list(itertools.permutations(OVERRIDES, n)) if n <= 2 else gen.shuffled(list(itertools.permutations(OVERRIDES, n)))[:300]
+  # the same directive text more than once (every occurrence counts, in its place)
+  seqs += [('set:p=1', 'set:p=2', 'set:p=1'), ('fiddler:append_log', 'fiddler:append_log'),
+           ("fiddler:append_log('g')", 'set:p=1', "fiddler:append_log('g')", 'set:p=1'),
+           ("set:r='R'", 'fiddler:set_r(value=7)', "set:r='R'"),
+           ('set:p=1', "fiddler:replace_cfg('m')", 'set:p=1'), ('set:p=1', 'set:p=1')]
   res += common.pmap(check_directives, seqs, nproc)
   res.append(common.guard(misc_cases))
   return common.merge(
